@@ -2780,6 +2780,10 @@ def _efc_contact_init(cone_type: types.ConeType, is_sparse: bool, newton: bool, 
 
       rowadr = wp.atomic_add(efc_nnz_out, worldid, rownnz * ndim)
       if rowadr + rownnz * ndim > njmax_nnz_in:
+        # no room for this contact's non-zeros: detach its rows so that the Jacobian and
+        # row kernels skip them (the overflow is reported by _nnz_overflow)
+        for dim in range(ndim):
+          contact_efc_address_out[conid, dim] = -1
         return
       for dim in range(ndim):
         efcid = base_efcid + dim
@@ -3122,6 +3126,10 @@ def _efc_contact_init_flex(cone_type: types.ConeType, is_sparse: bool, newton: b
 
       rowadr = wp.atomic_add(efc_nnz_out, worldid, rownnz * ndim)
       if rowadr + rownnz * ndim > njmax_nnz_in:
+        # no room for this contact's non-zeros: detach its rows so that the Jacobian and
+        # row kernels skip them (the overflow is reported by _nnz_overflow)
+        for dim in range(ndim):
+          contact_efc_address_out[conid, dim] = -1
         return
       for dim in range(ndim):
         efcid = base_efcid + dim
